@@ -234,6 +234,19 @@ def run(chk):
         chk.violation("witness:generic-vs-dynamic", f"{w!r}: expected the user's generic overload to win: {json.dumps(resp)[:300]}",
                       {"op": "run", "src": w, "get": ["r"]})
 
+    # a user overload that does not match the call must not change its outcome - but a dynamic library overload
+    # re-resolves the name for the element type, and a user overload that makes *that* inner call ambiguous
+    # disables it
+    w2 = 'fn to_str(a0:int)->int{7002} let r = to_str([1]);'
+    resp = run_harness([{"op": "run", "src": w2, "get": ["r"]}])[0]
+    chk.evaluations += 1
+    if resp.get("compile") != "ok" or resp.get("vals", {}).get("r") != '(str "[1]")':
+        c = resp.get("compile")
+        chk.violation("witness:nonmatching-overload-disables-dynamic",
+                      f"{w2!r}: the user's to_str(int) does not match the call to_str(Sequence<int>), yet the call no longer "
+                      f"resolves to the library's overload: {c.get('class') if isinstance(c, dict) else json.dumps(resp)[:200]}",
+                      {"op": "run", "src": w2, "get": ["r"], "expected": '(str "[1]")'})
+
     return chk.finish(rule="sets of 1-6 same-named user overloads (generic and not, optional parameters, root or inner scope, "
                            "names fo/eq/to_str/add/len/neg) x call sites with fully known argument types x {base, permutations, "
                            "alpha-renaming, added non-matching overload}; non-trivial = distinct (name, argument types, overload set) "
